@@ -5,7 +5,7 @@ import warnings
 
 import numpy as np
 
-from oracles.sources import CLASSES, params
+from oracles.sources import CLASSES, interior_points, local_size, params
 
 LEN = {"dimension", "diameter", "vertices"}
 EXC = {"polarization", "current", "moment"}
@@ -32,6 +32,46 @@ def scaled(cls, kw, s, e):
     return out
 
 
+def near_surface_points(cls, base, nps, rng):
+    """observers a relative 1e-3 … 1e-8 off the body's surface (either side), located by bisection on the
+    library's own J pattern at unit scale; for line currents: that close to the conductor"""
+    import magpylib as magpy
+
+    pts = []
+    inner = interior_points(cls, base, nps, 3)
+    size = local_size(base)
+    if inner is not None:
+        for p_in in inner:
+            d = nps.normal(size=3)
+            d /= np.linalg.norm(d)
+            lo, hi = 0.0, 4.0 * size
+            if not np.any(magpy.getJ(base, p_in) != 0) or np.any(magpy.getJ(base, p_in + hi * d) != 0):
+                continue
+            for _ in range(70):
+                mid = 0.5 * (lo + hi)
+                if np.any(magpy.getJ(base, p_in + mid * d) != 0):
+                    lo = mid
+                else:
+                    hi = mid
+            for k in (3, 5, 7, 8):
+                for sgn in (-1, 1):
+                    pts.append(p_in + lo * (1 + sgn * 10.0**-k) * d)
+    elif cls == "Circle":
+        r0 = base.diameter / 2
+        for k in (3, 5, 7):
+            ph = nps.uniform(0, 2 * np.pi)
+            pts.append(np.array([np.cos(ph), np.sin(ph), 0]) * r0 * (1 + rng.choice([-1, 1]) * 10.0**-k))
+            pts.append(np.array([np.cos(ph) * r0, np.sin(ph) * r0, r0 * 10.0**-k]))
+    elif cls == "Polyline":
+        v = np.asarray(base.vertices, float)
+        for k in (3, 5, 7):
+            i = rng.randrange(len(v) - 1)
+            t = nps.uniform(-0.2, 1.2)
+            off = np.cross(v[i + 1] - v[i], nps.normal(size=3))
+            pts.append(v[i] + t * (v[i + 1] - v[i]) + off / np.linalg.norm(off) * np.linalg.norm(v[i + 1] - v[i]) * 10.0**-k)
+    return np.array(pts) if pts else np.zeros((0, 3))
+
+
 def sweep(ctx, n):
     import magpylib as magpy
 
@@ -47,27 +87,36 @@ def sweep(ctx, n):
             d /= np.linalg.norm(d, axis=1)[:, None]
             obs = np.concatenate([d * nps.uniform(2.5, 6, (5, 1)), nps.uniform(-0.12, 0.12, (3, 3))])
             base = ctor(cls)(**kw)
+            # binary mode: scaling by powers of two commutes exactly with every IEEE operation, so a
+            # unit-independent computation must reproduce the unit-scale result (almost) bit for bit, also
+            # right next to surfaces and conductors where every special-case decision is on a knife edge
+            binary = (i // len(CLASSES)) % 2 == 1
+            if binary:
+                obs = np.concatenate([obs, near_surface_points(cls, base, nps, rng)])
             refB, refH, refJ = base.getB(obs), base.getH(obs), magpy.getJ(base, obs)
             deg = {"Dipole": 3, "Circle": 1, "Polyline": 1}.get(cls, 0)
-            for k in rng.sample(decades, 3):
-                s = 10.0**k
-                e = 10.0 ** rng.choice([-12, -6, 0, 0, 6, 12])
+            tol = 1e-11 if binary else 1e-9
+            for k in (rng.sample([-33, -30, -20, -10, 10, 20, 30], 3) if binary else rng.sample(decades, 3)):
+                s = 2.0**k if binary else 10.0**k
+                e = 2.0 ** rng.choice([-40, -20, 0, 0, 20, 40]) if binary else 10.0 ** rng.choice([-12, -6, 0, 0, 6, 12])
                 o = ctor(cls)(**scaled(cls, kw, s, e))
                 B = o.getB(obs * s) * s**deg / e
                 H = o.getH(obs * s) * s**deg / e
                 J = magpy.getJ(o, obs * s)
                 done += 1
-                scB, scH = np.max(np.abs(refB)), np.max(np.abs(refH))
-                err = max(float(np.max(np.abs(B - refB)) / scB), float(np.max(np.abs(H - refH)) / scH))
+                fin = np.isfinite(refB).all(axis=1) & np.isfinite(refH).all(axis=1)  # non-finite reference values are C15's business
+                scB, scH = np.max(np.abs(refB[fin])), np.max(np.abs(refH[fin]))
+                err = max(float(np.max(np.abs(B - refB)[fin]) / scB), float(np.max(np.abs(H - refH)[fin]) / scH))
                 worst[cls] = max(worst.get(cls, 0.0), err if np.isfinite(err) else 1e300)
                 jpat = np.array_equal(J != 0, refJ != 0)
                 status = True
                 if cls == "TriangularMesh":
                     status = (o.status_open, o.status_disconnected, o.status_reoriented) == (base.status_open, base.status_disconnected, base.status_reoriented) \
                         and np.array_equal(o.faces, base.faces)
-                if not (err < 1e-9 and jpat and status):
-                    what = "field" if not err < 1e-9 else ("inside/outside" if not jpat else "mesh status/orientation")
-                    fails.append({"key": f"unit-scale:{cls}:1e{k}", "desc": f"{what} changes with the length unit (scale 1e{k}, rel. err {err:.2g})",
+                if not (err < tol and jpat and status):
+                    what = "field" if not err < tol else ("inside/outside" if not jpat else "mesh status/orientation")
+                    sk = f"2^{k}" if binary else f"1e{k}"
+                    fails.append({"key": f"unit-scale:{cls}:{sk}", "desc": f"{what} changes with the length unit (scale {sk}, rel. err {err:.2g})",
                                   "replay": {"class": cls, "scale": s, "excitation_factor": e, "params_at_scale_1": {a: np.asarray(v).tolist() for a, v in kw.items()},
                                              "observers_at_scale_1": obs.tolist(), "rel_err": err, "J_pattern_equal": bool(jpat)}})
     return fails, {"c12_cases": done, "c12_worst_rel_err": {k: float(f"{v:.3g}") for k, v in worst.items()}}
